@@ -1054,7 +1054,7 @@ func (m *Machine) convert(x Value, from, to types.Type) Value {
 				if b.Nil {
 					return m.strLit("")
 				}
-				return b.T
+				return m.current(b)
 			case SliceV:
 				return m.byteSliceToString(b)
 			}
